@@ -26,6 +26,15 @@ T0 = dt.datetime(2024, 2, 27, 0, 0, 0)   # spans Feb 29 and a month boundary
 CAT = ['Op']        # the category the queries ask for (the random part also uses names with '/' and '%')
 
 
+import enum
+
+
+class Operations(str, enum.Enum):
+    """Categories named by members of a str-mixin enum (the service's own catalogue of operations)."""
+    OPTIMIZE = 'optimize'
+    IMPORT = 'import'
+
+
 def build(fake, instants, prefix, writer=None, ids=None, each=None):
     """Saves one recording per instant, advancing the harness clock; ``each(now)`` runs after every save, so queries
     whose end defaults to "now" only ever see a store whose recordings are not in the future."""
@@ -195,8 +204,8 @@ def run(ctx):
         fake = FakeS3()
         with fake.installed():
             prefix = rng.choice(['', 'p', 'p/q'])
-            CAT[0] = ['Op', 'planning/optimize', 'top10%drivers', 'Op', 'load%d', 'a/b/c', 'rate%'][it % 7]
-            ctx.count('category_' + CAT[0])
+            CAT[0] = ['Op', 'planning/optimize', 'top10%drivers', Operations.OPTIMIZE, 'load%d', 'a/b/c', 'rate%'][it % 7]
+            ctx.count('category_' + ('a str-mixin enum member' if CAT[0] is Operations.OPTIMIZE else CAT[0]))
             # the zone the recording process runs in (windows are given in UTC, as the lookup documents)
             fake.tz_offset = dt.timedelta(hours=rng.choice([0, 0, 9, -8, 5.5, 13, -11]))
             ctx.count('process_zone_utc%+g' % (fake.tz_offset.total_seconds() / 3600.0))
